@@ -552,6 +552,9 @@ func c20Enum(ctx *ev.Ctx, fn func(C20Case)) string {
 	depths = append(depths, 63, 64, 65, 100, 127, 128, 129, 130, 200, 255, 256, 257, 300, 512, 513, 1000, 1025)
 	for _, depth := range depths {
 		for _, inner := range []int{-1, 0, 1} {
+			if depth > 40 && inner != 0 {
+				continue // beyond 40 levels: the innermost group holds a leaf (4 trees per depth, not 12)
+			}
 			for _, sib := range []bool{false, true} {
 				var t T
 				if inner >= 0 {
@@ -592,7 +595,7 @@ func c20Enum(ctx *ev.Ctx, fn func(C20Case)) string {
 			}
 		}
 	}
-	return "all AVP trees over two leaf codes, two grouped codes and one leaf that carries the code of a Grouped AVP under a foreign vendor id (opaque data, not a group) and one container whose code the dictionary declares as OctetString but which the application assembled as a group: every single node of nesting depth <=3 with inner width <=3 (outermost group: <=2 children quick, <=3 thorough), alone and next to a leaf in both orders; every ordered pair (and a family of triples) of depth-<=2 nodes; empty groups, repeated codes at several depths, groups in groups; leaves with codes 2147483648 and 3000000000 (private dictionary; asked for as uint32, as int and by name); chains of 1..40 and of 63, 64, 65, 100, 127..130, 200, 255..257, 300, 512, 513, 1000 and 1025 nested groups (innermost empty or holding a leaf, with or without a sibling leaf at every level). Per tree: FindAVP and FindAVPs by uint32, int and name for every code of the alphabet, a defined but absent code, an undefined code and an undefined name; FindAVPsWithPath for every path of length <=3 over the alphabet plus the absent code, alternating number (uint32 or int) and name per step, and paths with an unresolvable element in front of, between and behind resolvable ones (never an AVP). Every tree is searched twice: in a message carrying dict.Default and in one carrying a private dictionary that names the four codes differently and attaches the default names to codes absent from the tree (a name must resolve through the message's own dictionary). After the first round of queries each message is edited without going through Message.AddAVP / InsertAVP (a member added to its first group, its first top-level AVP cut out of the exported slice, its AVPs replaced by Marshal) and every query is asked again. Path searches are also made overlapping in time (a nested search on another message, started from inside the outer one through a caller-defined data type) after a search whose path did not resolve. Every tree in which a group subtree occurs more than once is also built with ONE node object for all its occurrences (a prebuilt group attached in several places): every occurrence must still be reported, in pre-order. Messages of a non-zero application: paths through groups the base application defines into AVPs only the message's application defines (Credit-Control, and a private dictionary that gives one name two codes in two applications). The caller's path slice is compared with a copy after every path search (it is the caller's); every non-empty list returned by FindAVPs / a one-element path search is kept and compared with a copy after all later searches on the message. Results are compared by pointer identity with a pre-order reference walk / strict per-level match."
+	return "all AVP trees over two leaf codes, two grouped codes and one leaf that carries the code of a Grouped AVP under a foreign vendor id (opaque data, not a group) and one container whose code the dictionary declares as OctetString but which the application assembled as a group: every single node of nesting depth <=3 with inner width <=3 (outermost group: <=2 children quick, <=3 thorough), alone and next to a leaf in both orders; every ordered pair (and a family of triples) of depth-<=2 nodes; empty groups, repeated codes at several depths, groups in groups; leaves with codes 2147483648 and 3000000000 (private dictionary; asked for as uint32, as int and by name); chains of 1..40 and of 63, 64, 65, 100, 127..130, 200, 255..257, 300, 512, 513, 1000 and 1025 nested groups (innermost empty or holding a leaf - beyond 40 levels always a leaf -, with or without a sibling leaf at every level). Per tree: FindAVP and FindAVPs by uint32, int and name for every code of the alphabet, a defined but absent code, an undefined code and an undefined name; FindAVPsWithPath for every path of length <=3 over the alphabet plus the absent code, alternating number (uint32 or int) and name per step, and paths with an unresolvable element in front of, between and behind resolvable ones (never an AVP). Every tree is searched twice: in a message carrying dict.Default and in one carrying a private dictionary that names the four codes differently and attaches the default names to codes absent from the tree (a name must resolve through the message's own dictionary). After the first round of queries each message is edited without going through Message.AddAVP / InsertAVP (a member added to its first group, its first top-level AVP cut out of the exported slice, its AVPs replaced by Marshal) and every query is asked again. Path searches are also made overlapping in time (a nested search on another message, started from inside the outer one through a caller-defined data type) after a search whose path did not resolve. Every tree in which a group subtree occurs more than once is also built with ONE node object for all its occurrences (a prebuilt group attached in several places): every occurrence must still be reported, in pre-order. Messages of a non-zero application: paths through groups the base application defines into AVPs only the message's application defines (Credit-Control, and a private dictionary that gives one name two codes in two applications). The caller's path slice is compared with a copy after every path search (it is the caller's); every non-empty list returned by FindAVPs / a one-element path search is kept and compared with a copy after all later searches on the message. Results are compared by pointer identity with a pre-order reference walk / strict per-level match."
 }
 
 // c20AppPaths: messages of a NON-ZERO application. Every element of a path resolves through the
